@@ -135,11 +135,28 @@ static std::string smf_with_everything() {
     add(t1, 0, 0xFF, 0x03, {'t', 'r', 'k'}); add(t1, 1, 0xC9, 0, {1}); add(t1, 0, 0x99, 0, {36, 127}); add(t1, 2, 0xB9, 0, {111, 0}); add(t1, 4, 0xE9, 0, {0, 0x50}); add(t1, 0, 0xA9, 0, {36, 50}); add(t1, 0, 0xD9, 0, {40}); add(t1, 0, 0xF7, 0, {1, 2, 3}); add(t1, 9, 0xFF, 0x2F, {});
     s.tracks = {t0, t1}; smf_ticks(s); return smf_write(s);
 }
+// XMI song with two FOR loops, the first left by BREAK, the second closed by NEXT (balanced)
+static std::string xmi_with_loops() {
+    auto be32 = [](std::string &o, uint32_t v) { o += (char)(v >> 24); o += (char)(v >> 16); o += (char)(v >> 8); o += (char)v; };
+    auto chunk = [&](const char *id, const std::string &body) { std::string o(id, 4); be32(o, (uint32_t)body.size()); o += body; if(body.size() & 1) o += (char)0; return o; };
+    const uint8_t ev[] = {0xB0, 116, 2, 40, 0x90, 60, 100, 10, 40, 0xB0, 117, 0, 40, 0xB0, 116, 2, 40, 0x90, 62, 100, 10, 40, 0xB0, 117, 127, 40, 0xFF, 0x2F, 0x00};
+    std::string cat = "XMID"; cat += chunk("FORM", "XMID" + chunk("EVNT", std::string((const char *)ev, sizeof ev)));
+    std::string info; info += (char)1; info += (char)0;
+    return chunk("FORM", "XDIR" + chunk("INFO", info)) + chunk("CAT ", cat);
+}
+// SMF with two marker-stack loops ("loopstart=2" ... "loopend=") one after the other
+static std::string smf_with_stack_loops() {
+    SSong s; s.format = 0; s.division = 96; STrack t; auto add = [&](uint32_t d, uint8_t st, uint8_t meta, std::vector<uint8_t> data) { SEv e; e.delta = d; e.status = st; e.meta = meta; e.data = data; t.ev.push_back(e); };
+    auto text = [](const char *x) { return std::vector<uint8_t>(x, x + strlen(x)); };
+    add(0, 0xFF, 0x06, text("loopStart=2")); add(10, 0x90, 0, {60, 100}); add(40, 0x80, 0, {60, 0}); add(5, 0xFF, 0x06, text("loopEnd=0"));
+    add(20, 0xFF, 0x06, text("loopStart=3")); add(10, 0x90, 0, {62, 100}); add(40, 0x80, 0, {62, 0}); add(5, 0xFF, 0x06, text("loopEnd=0")); add(30, 0xFF, 0x2F, {});
+    s.tracks = {t}; smf_ticks(s); return smf_write(s);
+}
 static std::vector<std::string> valid_files() {
     std::vector<std::string> v; std::string smf = smf_with_everything();
     v.push_back(smf); v.push_back(tiny_smf(0, 60, 3)); v.push_back(wrap_rmi(tiny_smf(9, 36, 4)));
     { std::string g("GMF\x01\0\0\0", 7); g += tiny_smf(0, 50, 4).substr(22); v.push_back(g); }
-    v.push_back(small_mus()); v.push_back(small_xmi(1)); v.push_back(small_xmi(3));
+    v.push_back(small_mus()); v.push_back(small_xmi(1)); v.push_back(small_xmi(3)); v.push_back(xmi_with_loops()); v.push_back(smf_with_stack_loops());
     v.push_back(std::string("CTMF\1\1\x28\0\x34\0\xC0\0\0\0\0\0\0\0\0\0\0\0\0\0", 24) + std::string(40, '\0'));
     return v;
 }
